@@ -55,6 +55,7 @@ T = {
 }
 READY = os.environ.get('READY')
 def main():
+    subprocess.check_call([f'{V}/tools/merge_kf.py'])
     ready = [l.strip() for l in open(f'{V}/tools/READY').read().split() if l.strip()]
     checks = []; na = []
     for pid, (eng, cat, tech, text, note, ref) in sorted(T.items()):
